@@ -383,3 +383,23 @@ _extend('C05',
         '_crash_restart): after flush every store file loads to exactly the batches the run produced; closing and reopening every store restores '
         'the pool state; a kill at any point of a run leaves, for every store of a node of the net, a file that loads to a PREFIX batches 0..m-1 of '
         'what the run produced (at least what was there at the last flush), and the restarted handler continues as the pool model on that abstraction.')
+_extend('C04',
+        ' MEANING OF THE TRACE PREDICATE (C04_trace_ok_meaning, C04_trace_ok_iff_spec, C04_every_schedule_trace_meaning): the decidable '
+        'checker trace_ok - which the theorems conclude and the correspondence applies to the real client-call trace - is EQUIVALENT to the '
+        'declarative statement over the event list: the reads are indices 0..n-1 in order, at every prefix no more than max_parallel tasks are '
+        'outstanding, submissions = reads + cancels at the end, a read of i after a cancel of i reads a task submitted after that cancel, every '
+        'read / is_ready question concerns the oldest live task, only the newest live task is cancelled, a submission takes the next free index; '
+        'hence every schedule of the model has these properties.')
+_extend('C01',
+        ' MEANING OF THE DECIDABLE PROPERTY PREDICATE (C01_ok_iff_spec, C01_ok_meaning, C01_ok_rows_best): the predicate ok that the '
+        'correspondence evaluates on the real sampler\'s answer is EQUIVALENT to the declarative statement: exactly n_samples rows; discrepancies '
+        'non-decreasing; every row holds a draw and the rows together with some rest are a permutation of the accepted consumed draws (whole rows, '
+        'with multiplicity); nothing in the rest is better than the reported threshold, which is the last row\'s discrepancy (so no returned row is '
+        'worse than a draw left out); n_sim = batch_size * n_batches, all batches of the table consumed, the budget forms consume exactly the '
+        'objective\'s number of batches; with a threshold every row is within it.')
+_extend('C14',
+        ' MODEL_OK (C14_model_op_ok, C14_model_op_ok_reachable, _setflag, _remove, _become, C14_model_op_ok_needs_simple): the model\'s own edit '
+        'step passes the decidable clause op_ok that the correspondence evaluates on the implementation\'s before/after dumps (remove: node, its data '
+        'and orphaned private constants gone, nothing else; become: state, parents and data taken, children kept, replacement gone; flag write: '
+        'nothing else changes) for every consistent model with one edge per ordered node pair - which every script-reachable model has; a consistent '
+        'model with two parallel edges is the counterexample that shows the side condition necessary (DiGraph keeps one of them on re-adding).')
